@@ -74,7 +74,7 @@ def _install_io(u, rec):
     u.contracts['gemdat.trajectory.Trajectory.from_cache'] = from_cache
 
     def to_cache(interp, self, cache):
-        rec.setdefault('to_cache_calls', []).append((self, cache))
+        rec.setdefault('to_cache_calls', []).append((self, cache, self.get('_version') if isinstance(self, SObj) and self.has('_version') else 0))
         return None
     u.contracts['gemdat.trajectory.Trajectory.to_cache'] = to_cache
 
@@ -127,7 +127,12 @@ def _install_io(u, rec):
         o = SObj('Trajectory', _parsed=True, _kwargs=kwargs)
         return o
     u.constructors['Trajectory'] = construct
-    u.obj_attrs[('Trajectory', 'to_positions')] = lambda i, o, l: PyFn(lambda ii, ll: None)
+    def to_positions_model(i, o, l):
+        def call(ii, ll):
+            o.set('_version', (o.get('_version') if o.has('_version') else 0) + 1)  # a state change of the object (coords wrapped / converted)
+            return None
+        return PyFn(call)
+    u.obj_attrs[('Trajectory', 'to_positions')] = to_positions_model
 
     def from_structures(interp, cls, structures, constant_lattice=True, **kw):
         rec.setdefault('constructed', []).append({'structures': structures, 'constant_lattice': constant_lattice, **kw})
@@ -173,6 +178,9 @@ def unit_flow(tier):
                 if parsed:
                     out.append(('parsing only when the cache is absent or unreadable', fstate != 1))
                     out.append(('the parsed trajectory itself is written to the cache afterwards', z3.BoolVal(len(tc) == 1 and tc[0][0] is res)))
+                    if len(tc) == 1 and tc[0][0] is res:
+                        now = res.get('_version') if res.has('_version') else 0
+                        out.append(('the object is written to the cache in the state in which it is returned (no conversion after the write)', z3.BoolVal(tc[0][2] == now)))
                     ex = rec.get('exists_checks', [])
                     if tc and ex:
                         same = tc[0][1] is ex[0].get('of') or (isinstance(tc[0][1], SObj) and tc[0][1] is ex[0].get('of')) or tc[0][1] == ex[0].get('of')
